@@ -9,6 +9,9 @@ namespace Coupe.Codec
 /-- a finite `f64` bit pattern (exponent field not all ones). -/
 def FiniteBits (x : Nat) : Prop := x < 18446744073709551616 ∧ x / 4503599627370496 % 2048 ≠ 2047
 
+instance (x : Nat) : Decidable (FiniteBits x) :=
+  inferInstanceAs (Decidable (x < 18446744073709551616 ∧ x / 4503599627370496 % 2048 ≠ 2047))
+
 /-- The trusted contract of Rust's `Display`/`FromStr` for `usize`, `isize` and
 finite `f64`: parsing what was displayed gives the value back (decimal digit
 strings are not changed by `make_ascii_lowercase`). -/
